@@ -11,10 +11,8 @@ HARNESSES = [dict(name="session", pkg="./pkg/session/", test="TestVerifC17", fil
              dict(name="pppoe", pkg="./internal/pppoe/", test="TestVerifC17Callers", timeout=600,
                   files=[("internal/pppoe/zz_verif_c17_test.go", "harness/C17/zz_verif_c17_pppoe_test.go")])]
 MODEL_NEEDS_IMPL = True
-# "repaired": a terminate event resolves to the session on the tuple only if it is the session the event names
-# (fixes/C17_eviction_kills_new_session.patch); "defective": /repo HEAD, any session on the tuple (the publisher's own new one).
-# Only e2e cases depend on the variant.
-VARIANTS = ["repaired", "defective"]
+# No model variants: the one recorded finding (eviction-kills-displacing-session) is fixed in /repo 94649ad; the model is what HEAD
+# does, a regression to the old behaviour is a VIOLATION.
 RULE = ("seq: random sequential histories (1..40 ops) of Claim/Release/IsOwner/Lookup by 2..5 sessions of both protocols "
         "(plus rare foreign protocol strings, empty session ids, Owner.Key different from the claimed key) over 1..4 tuples "
         "drawn from a pool with colliding and non-colliding shard hashes, same MAC on different C-VLANs, VLAN 0/65535; "
@@ -115,9 +113,11 @@ def gen_seq(rng):
         x = rng.random()
         if x < 0.05:
             ops.append("n")
-        elif x < 0.09:
+        elif x < 0.12 and len(ops) > 1:
+            ops.append(rng.choice("vvw"))
+        elif x < 0.15:
             ops.append("s %s" % rng.choice(keys + POOL))
-        elif x < 0.12:
+        elif x < 0.18:
             ln = rng.choice([0, 1, 5, 6, 6, 6, 7, 8])
             ops.append("m %d %d %s" % (rng.choice([0, 1, 100, 65535]), rng.choice([0, 10, 65535]),
                                        ("%0*x" % (2 * ln, rng.getrandbits(8 * ln))) if ln else "-"))
@@ -161,6 +161,11 @@ def gen_conc(rng, tier, race=False):
 
 
 STRUCT_SEQ = [
+    # value, not alias: what Lookup/Claim returned stays what it was and cannot be used to edit the table
+    "seq c 100.10.02aabbcc0001 {i} {s1} 100.10.02aabbcc0001 l 100.10.02aabbcc0001 c 100.10.02aabbcc0001 {p} {s2} 100.10.02aabbcc0001 v "
+    "l 100.10.02aabbcc0001 w l 100.10.02aabbcc0001 i 100.10.02aabbcc0001 {p} {s2} 100.10.02aabbcc0001 n",
+    "seq c 100.10.02aabbcc0001 {i} {s1} 100.10.02aabbcc0001 l 100.10.02aabbcc0001 c 100.10.02aabbcc0001 {i} {s1} 100.11.02aabbcc0001 v "
+    "r 100.10.02aabbcc0001 {i} {s1} 100.10.02aabbcc0001 v",
     # the repository's own examples, as histories
     "seq c 100.10.02aabbcc0001 {i} {s1} 100.10.02aabbcc0001 l 100.10.02aabbcc0001 n",
     "seq c 100.10.02aabbcc0001 {i} {s1} 100.10.02aabbcc0001 c 100.10.02aabbcc0001 {i} {s1} 100.10.02aabbcc0001 n",
@@ -214,6 +219,15 @@ def gen_cases(rng, tier, budget):
             who, k, hx(other), hx("s9"), hx("s1"), k, hx("s1"), k))
         cases.append("%s C 100 10 02aabbcc0001 %s 1 x %s %s %s R 100 10 02aabbcc0001 %s 1 l %s" % (
             who, hx("s1"), k, hx(other), hx("s9"), hx("s1"), k))
+        # forced overlap: the other protocol claims between any two registry calls of the call site
+        for j in (0, 1, 2):
+            cases.append("%s G %d x %s %s %s C 100 10 02aabbcc0001 %s 1 l %s" % (who, j, k, hx(other), hx("s9"), hx("s1"), k))
+            cases.append("%s x %s %s %s G %d x %s %s %s C 100 10 02aabbcc0001 %s 1 l %s" % (
+                who, k, hx(other), hx("s8"), j, k, hx(other), hx("s9"), hx("s1"), k))
+            cases.append("%s x %s %s %s G %d y %s %s %s C 100 10 02aabbcc0001 %s 1 l %s" % (
+                who, k, hx(other), hx("s8"), j, k, hx(other), hx("s8"), hx("s1"), k))
+            cases.append("%s C 100 10 02aabbcc0001 %s 1 G %d x %s %s %s R 100 10 02aabbcc0001 %s 1 l %s" % (
+                who, hx("s1"), j, k, hx(other), hx("s9"), hx("s1"), k))
         for _ in range(300 if quick else 4000):
             cases.append(gen_callers(rng, who))
     for _ in range(nseq):
@@ -240,26 +254,6 @@ E2E_FIXED = ["e2e D0 P0", "e2e P0 D0", "e2e D0 D0", "e2e P0 P0", "e2e D0 P0 D0 P
              "e2e D2 P0 P2", "e2e P3 P3 D3", "e2e D3 P3 P3 D3"]
 
 
-def signature(case, impl, models):
-    """known finding: the takeover leaves NO session and no owner where the repaired model keeps the new claimant"""
-    if not case.startswith("e2e"):
-        return None
-    it, rt, ops = impl.split(), models["repaired"].split(), case.split()[1:]
-    for n, (a, b) in enumerate(zip(it, rt)):
-        if a != b:
-            try:
-                (_, sa, oa), (_, sb, ob) = a.split(":"), b.split(":")
-                ia, pa = map(int, sa[1:].split("p"))
-                ib, pb = map(int, sb[1:].split("p"))
-            except ValueError:
-                return None
-            lost_new = (ia, pa) == ((ib - 1, pb) if ops[n][0] == "D" else (ib, pb - 1))
-            if lost_new and oa == "-" and ob == ("i" if ops[n][0] == "D" else "p"):
-                return "eviction-kills-displacing-session"
-            return None
-    return None
-
-
 def gen_callers(rng, who):
     """the component's own claim/release calls interleaved with registry calls by other parties"""
     other = "pppoe" if who == "ipoe" else "ipoe"
@@ -276,6 +270,14 @@ def gen_callers(rng, who):
                                                hx(rng.choice(SIDS[:3] + [""])), rng.random() < 0.85))
         elif x < 0.44:
             ops.append("Z %d %d %s %s 1" % (s, c, m, hx(rng.choice(SIDS[:3]))))
+        elif x < 0.6:
+            # forced overlap at the call site: another party's Claim/Release lands before the j-th registry call
+            p = other if rng.random() < 0.8 else who
+            ops.append("G %d %s %s %s %s" % (rng.choice([0, 1, 1, 1, 2, 3]), "x" if rng.random() < 0.7 else "y", k, hx(p),
+                                              hx(rng.choice(SIDS[:3]))))
+            ops.append("%s %d %d %s %s %d" % ("C" if rng.random() < 0.75 else "R", s, c, m, hx(rng.choice(SIDS[:3])),
+                                               rng.random() < 0.9))
+            ops.append("l %s" % k)
         elif x < 0.75:
             p = other if rng.random() < 0.7 else rng.choice([who] + ODD_PROTOS)
             ops.append("%s %s %s %s" % ("x" if rng.random() < 0.7 else "y", k, hx(p), hx(rng.choice(SIDS[:3]))))
@@ -286,7 +288,7 @@ def gen_callers(rng, who):
     return who + " " + " ".join(ops)
 
 
-OPLEN = {"c": 5, "r": 5, "i": 5, "l": 2, "s": 2, "m": 4, "n": 1, "C": 6, "R": 6, "x": 4, "y": 4, "Z": 6}
+OPLEN = {"c": 5, "r": 5, "i": 5, "l": 2, "s": 2, "m": 4, "n": 1, "C": 6, "R": 6, "x": 4, "y": 4, "Z": 6, "G": 6, "v": 1, "w": 1}
 
 
 def split_ops(toks):
@@ -393,6 +395,10 @@ def classify(case, impl, model):
         if not diff:
             return "P", "caller history: %d results, model %d" % (len(it), len(mt))
         i = diff[0]
+        if mt[i].endswith("!nonatomic"):
+            return "P", ("%s call site is not ONE atomic registry operation: with %s landing between its registry calls, op #%d (%s) "
+                         "gave %s, which neither 'interloper first' nor 'interloper last' explains (the latter gives %s)" % (
+                             case.split()[0], " ".join(ops[i - 1]) if i else "?", i, " ".join(ops[i]), it[i], mt[i][:-10]))
         return "P", "%s caller: op #%d (%s) gave %s, the specification gives %s" % (
             case.split()[0], i, " ".join(ops[i]), it[i], mt[i])
     if case.startswith("seq"):
@@ -457,12 +463,13 @@ def shrink(case):
 
 def distribution(cases, impl):
     d = {"seq": 0, "conc": 0, "rconc": 0, "ipoe": 0, "pppoe": 0, "wgl": 0, "wgl_reject": 0, "e2e": 0, "e2e_ops": 0,
-         "e2e_cross_protocol_takeovers": 0, "e2e_both_gone_after_takeover": 0, "caller_claims": 0, "caller_releases": 0,
+         "e2e_cross_protocol_takeovers": 0, "e2e_both_gone_after_takeover": 0, "caller_claims": 0, "caller_releases": 0, "gated_call_sites": 0, "gate_fired_inside": 0,
          "eviction_events": 0, "ops": 0, "claim": 0, "release": 0, "isowner": 0, "lookup": 0,
-         "shard_obs": 0, "count_obs": 0, "makekey": 0, "displaced_reported": 0, "claims_nil": 0,
+         "shard_obs": 0, "count_obs": 0, "makekey": 0, "alias_reread": 0, "alias_scribble": 0, "displaced_reported": 0, "claims_nil": 0,
          "conc_ops": 0, "conc_with_overlap": 0, "overlapping_same_tuple_pairs": 0, "overlapping_claim_claim_pairs": 0, "overlapping_claim_release_pairs": 0, "max_threads": 0,
          "isowner_true": 0, "lookup_nil": 0, "shard_obs_equal_to_modelled_hash": 0, "hang": 0}
-    names = {"c": "claim", "r": "release", "i": "isowner", "l": "lookup", "s": "shard_obs", "n": "count_obs", "m": "makekey"}
+    names = {"c": "claim", "r": "release", "i": "isowner", "l": "lookup", "s": "shard_obs", "n": "count_obs", "m": "makekey",
+             "v": "alias_reread", "w": "alias_scribble"}
     for c, o in zip(cases, impl):
         t = c.split()
         d[t[0]] += 1
@@ -480,6 +487,8 @@ def distribution(cases, impl):
             continue
         if t[0] in ("ipoe", "pppoe"):
             for op, r in zip(split_ops(t[1:]), o.split()):
+                d["gated_call_sites"] += op[0] in "CR" and "/" in r
+                d["gate_fired_inside"] += op[0] in "CR" and "/g:" in r
                 d["caller_claims"] += op[0] == "C"
                 d["caller_releases"] += op[0] == "R"
                 d["eviction_events"] += r.count("@")
